@@ -198,12 +198,15 @@ def run_case(case):
                             st["entries_before_start_excluded"] += 1
                             continue
                         exp = (prod.idx, r["seq"], emitted[(prod.name, r["seq"])])
+                        if r["d_vec"] != W.vec_of(r["d_h"]):
+                            V.append(dict(clause="vector_payload_not_the_scheduled_message", vertex=(n, k), producer=prod.name, scheduled_seq=r["seq"], got=r["d_vec"],
+                                          expected=W.vec_of(r["d_h"])))
                         if (r["d_src"], r["d_seq"], r["d_h"]) != exp:
                             V.append(dict(clause="payload_not_the_scheduled_message", vertex=(n, k), producer=prod.name, scheduled_seq=r["seq"],
                                           got=(r["d_src"], r["d_seq"], r["d_h"]), expected=exp))
                     else:
                         st["default_entries_checked"] += 1
-                        if (r["d_src"], r["d_seq"], r["d_nonce"], r["d_h"]) != (prod.idx, -1, -1, 0):
+                        if (r["d_src"], r["d_seq"], r["d_nonce"], r["d_h"]) != (prod.idx, -1, -1, 0) or r["d_vec"] != [0, 0, 0]:
                             V.append(dict(clause="default_entry_not_default_output", vertex=(n, k), producer=prod.name,
                                           got=(r["d_src"], r["d_seq"], r["d_nonce"], r["d_h"])))
             if len(V) > 4:
